@@ -103,7 +103,8 @@ type flippingReader struct {
 
 func (fr *flippingReader) Read(b []byte) (int, error) {
 	n, err := fr.read.Read(b)
-	if err == nil || err == io.EOF {
+	// Whatever the source's own error, the bytes it did hand over reach our caller: they have to reach the copy too.
+	if n > 0 || err == nil || err == io.EOF {
 		n2, err2 := fr.dup.Write(b[:n])
 		if err2 == nil && n2 < n {
 			err2 = io.ErrShortWrite
